@@ -902,7 +902,7 @@ class Interp:
             return ("method", base, "sympy." + e.attr)
         if isinstance(base, list) and e.attr in ("append", "extend", "insert", "copy", "index", "count"):
             return ("method", base, e.attr)
-        if isinstance(base, dict) and e.attr in ("setdefault", "get", "items", "keys", "values"):
+        if isinstance(base, dict) and e.attr in ("setdefault", "get", "items", "keys", "values", "pop", "update", "copy"):
             return ("method", base, e.attr)
         raise Undecided(f"attribute `{norm(e)[:50]}`")
 
@@ -933,6 +933,8 @@ class Interp:
             return self.call_def(self.module_funcs[f[1]], args, kw, {})
         if isinstance(f, tuple) and f[0] == "method":
             _, base, name = f
+            if set(kw) - {"axis", "min", "max", "dtype", "subs", "copy", "order"}:
+                raise Undecided(f".{name} with the keyword(s) {sorted(kw)}")
             if name in ("sympy.evalf", "sympy.subs"):
                 mapping = kw.get("subs", args[0] if args else {})
                 if not isinstance(mapping, dict):
@@ -991,6 +993,13 @@ class Interp:
                 return base.get(args[0], args[1] if len(args) > 1 else None)
             if name in ("items", "keys", "values"):
                 return list(getattr(base, name)())
+            if isinstance(base, dict) and name == "pop":
+                return base.pop(args[0], *args[1:2])
+            if isinstance(base, dict) and name == "update":
+                base.update(*args, **kw)
+                return None
+            if isinstance(base, dict) and name == "copy":
+                return dict(base)
         if isinstance(f, tuple) and f[0] == "builtin":
             return self.builtin(f[1], args, kw)
         if isinstance(f, tuple) and f[0] == "np":
@@ -1106,6 +1115,24 @@ class Interp:
             raise Undecided("isinstance")
         if name in ("min", "max"):
             vals = list(args[0]) if len(args) == 1 else list(args)
+            extra = set(kw) - {"key", "default"}
+            if extra:
+                raise Undecided(f"{name} with {sorted(extra)}")
+            if not vals and "default" in kw:
+                return kw["default"]
+            if kw.get("key") is not None:
+                keyed = []
+                for v_ in vals:
+                    k_ = self.apply(kw["key"], [v_], {})
+                    k_ = tuple(k_) if isinstance(k_, (list, tuple)) else (k_,)
+                    try:
+                        keyed.append((tuple(self._int(x) for x in k_), v_))
+                    except Undecided:
+                        raise Undecided(f"{name} with a key on symbolic data") from None
+                pick = min if name == "min" else max
+                best = pick(k for k, _ in keyed)
+                # Python returns the first element that attains the extremum
+                return next(v_ for k, v_ in keyed if k == best)
             try:
                 ints = [self._int(v) for v in vals]
             except Undecided:
@@ -1116,7 +1143,17 @@ class Interp:
             return min(ints) if name == "min" else max(ints)
         raise Undecided(f"builtin {name}")
 
+    #: keyword arguments of NumPy routines that the model reads (or that cannot change a value: dtype, copy, order); any other
+    #: keyword -- out=, where=, keepdims=, ... -- would silently change the meaning if it were ignored, so it is refused
+    NP_KW = {"axis", "dtype", "repeat", "min", "max", "a_min", "a_max", "axes", "fill_value", "copy", "order", "ndmin", "start",
+             "subok", "like", "indexing", "return_inverse"}
+
     def numpy(self, name, args, kw, e):
+        unknown = set(kw) - self.NP_KW
+        if unknown:
+            raise Undecided(f"np.{name} with the keyword(s) {sorted(unknown)}")
+        if "indexing" in kw or "return_inverse" in kw:
+            raise Undecided(f"np.{name} with {sorted(kw)}")
         if name in ("ones", "full", "zeros_like", "ones_like", "empty_like", "full_like"):
             if name.endswith("_like"):
                 ref = args[0] if isinstance(args[0], np.ndarray) else _obj_array(args[0])
